@@ -104,3 +104,17 @@ package blockresults
 //@     assert [no-fold-over-the-split-by-map-after-a-slice-was-adopted-into-it] ghost(0, "adoptedByRef") == 0
 //@     assert [the-fold-takes-the-incoming-sides-stats-of-the-same-split-by-value] arg2 == toJoin.groupedRunningStats[groupByColVal]
 //@ end
+
+// C04 (every event is counted in the time bucket its timestamp falls in, and in
+// no other): the accumulators of the timechart `other` series start EMPTY for
+// every time bucket — what is handed to the per-bucket conversion is an array of
+// accumulators that hold nothing yet (made for this bucket), so a bucket's
+// `other` cell never includes what an earlier bucket folded in.
+//@ func (*GroupByBuckets).ConvertToAggregationResult
+//@   props C04
+//@   assumecalleerequires
+//@   loop 4:
+//@     invariant 0 <= i && i <= len(otherCValArr) && len(otherCValArr) == len(req.MeasureOperations) && forall(k, 0, i, otherCValArr[k] != nil && otherCValArr[k].Dtype == sutils.SS_INVALID)
+//@   site store tmLimitResult.OtherCValArr #1:
+//@     assert [the-other-series-accumulators-start-empty-for-every-time-bucket] forall(k, 0, len(value), value[k] != nil && value[k].Dtype == sutils.SS_INVALID)
+//@ end
